@@ -6,4 +6,8 @@ mkdir -p evidence .cache
 if ! /venv/bin/python -c "import hypothesis" 2>/dev/null; then
     PIP_NO_INDEX=1 /venv/bin/pip install --no-index --find-links /opt/veriftools/wheels hypothesis || exit 2
 fi
+# optional: atheris (coverage-guided fuzzing supplement of the thorough tier for the two text parsers); kept beside the framework, not in /venv
+if [ ! -d .deps/atheris ]; then
+    PIP_NO_INDEX=1 /venv/bin/pip install --no-index --find-links /opt/veriftools/wheels --target .deps atheris >/dev/null 2>&1 || echo "atheris not installed (thorough-tier fuzz supplement will be skipped)"
+fi
 /venv/bin/python -c "import hypothesis, numpy, scipy, sklearn; print('setup ok: hypothesis', hypothesis.__version__)"
